@@ -23,7 +23,17 @@ def name(e):
 for line in sys.stdin:
 	parts = line.split()
 	try:
-		if parts[0] == 'c':
+		if parts[0] == 'now':
+			# Date() without argument is this moment (as a UTC instant, whatever the zone of the process), and so is the Date of a prepared response
+			d = int(Date())
+			off = d - int(time.time())
+			from httoop import Request, Response
+			from httoop.semantic.response import ComposedResponse
+			resp = Response(200)
+			ComposedResponse(resp, Request('GET', '/')).prepare()
+			off2 = int(Date(resp.headers['Date'])) - int(time.time())
+			print('ok' if abs(off) <= 3 and abs(off2) <= 3 else 'off:%d:%d' % (round(off / 60.0), round(off2 / 60.0)))
+		elif parts[0] == 'c':
 			print(bytes(Date(int(parts[1]))).hex())
 		elif parts[0] == 'p':
 			print('ok %d' % int(Date(bytes.fromhex(parts[1]))))
